@@ -148,10 +148,27 @@ def wide_trees(gene_ids: Sequence[str]):
     return st.tuples(st.sampled_from(["or", "or", "and"]), st.lists(group.filter(lambda g: len(g) >= 2), min_size=8, max_size=12)).map(build)
 
 
+def shared_trees(gene_ids: Sequence[str]):
+    """Rules in which one complex (an and/or group of 2-3 genes) occurs under two or three different parents, e.g.
+    (x or (a and b)) and (y or (a and b)): equal sub-expressions may end up as one shared node in a rule object that was
+    built from another representation (since seeded change C08-8)."""
+    leaf = st.sampled_from(list(gene_ids))
+    small = st.one_of(leaf, leaf, st.lists(leaf, min_size=2, max_size=2, unique=True).map(lambda g: ["or", *g]))
+
+    def build(t):
+        outer, group, sides = t
+        inner = "or" if outer == "and" else "and"
+        shared = [outer, *group]
+        return [outer, *[[inner, side, shared] for side in sides]]
+
+    return st.tuples(st.sampled_from(["and", "and", "or"]), st.lists(leaf, min_size=2, max_size=3, unique=True),
+                     st.lists(small, min_size=2, max_size=3)).map(build)
+
+
 def opt_trees(gene_ids: Sequence[str], p_none: float = 0.3, **kw):
     if not gene_ids:
         return st.none()
     if len(gene_ids) < 2:
         return st.one_of(st.none(), trees(gene_ids, **kw), trees(gene_ids, **kw))
     t = trees(gene_ids, **kw)
-    return st.one_of(st.none(), st.none(), st.none(), t, t, t, t, t, t, wide_trees(gene_ids))
+    return st.one_of(st.none(), st.none(), st.none(), t, t, t, t, t, t, wide_trees(gene_ids), shared_trees(gene_ids))
